@@ -2,7 +2,8 @@
 """Self-test: every mutant under selftest/mutants (and seeded/) must make its property's check fail on a scratch
 copy of /repo; harmless edits (kind=harmless) must not. usage: run.py [-j N] [name-substring ...]"""
 import sys, os, json, subprocess, tempfile, shutil, re, concurrent.futures, time
-ROOT = '/verif'
+ROOT = os.path.dirname(os.path.dirname(os.path.abspath(__file__)))
+REPO = os.environ.get('VP_RUN_REPO') or '/repo'
 env = dict(os.environ)
 env['PATH'] = '/root/go/pkg/mod/golang.org/toolchain@v0.0.1-go1.24.0.linux-amd64/bin:' + env['PATH']
 env.update(GOTOOLCHAIN='local', GOFLAGS='-mod=mod', GOPROXY='off')
@@ -25,7 +26,7 @@ def run_one(item):
     tmp = tempfile.mkdtemp(prefix='vcgo-selftest-')
     t0 = time.time()
     try:
-        subprocess.check_call(['rsync', '-a', '--exclude', '.git', '/repo/', tmp + '/repo/'])
+        subprocess.check_call(['rsync', '-a', '--exclude', '.git', REPO + '/', tmp + '/repo/'])
         r = subprocess.run(['git', 'apply', '--unsafe-paths', '--directory', tmp + '/repo', m + '/patch.diff'], capture_output=True, text=True, cwd='/')
         if r.returncode != 0:
             r = subprocess.run(['patch', '-p1', '-d', tmp + '/repo', '-i', m + '/patch.diff'], capture_output=True, text=True)
@@ -34,7 +35,7 @@ def run_one(item):
         detail = []
         caught = False
         for prop in props:
-            r = subprocess.run([ROOT + '/bin/vcgo', 'check', '-v', '-no-evidence', '-repo', tmp + '/repo', '-replay-out', tmp + '/replay', prop],
+            r = subprocess.run([ROOT + '/bin/vcgo', 'check', '-v', '-no-evidence', '-verif', ROOT, '-repo', tmp + '/repo', '-replay-out', tmp + '/replay', prop],
                                capture_output=True, text=True, env=env)
             obs = re.findall(r'obligation (\S+)', r.stdout)
             detail.append('%s: exit=%d %s' % (prop, r.returncode, ' '.join(sorted(set(re.sub(r'@ret\d+|@\d+', '', o) for o in obs)))[:400]))
